@@ -2,6 +2,7 @@ package nodes
 
 import (
 	"fmt"
+	"math"
 	"math/rand"
 	"net"
 	"strconv"
@@ -544,7 +545,97 @@ func runC20Gossip(r *rand.Rand, sh *core.Shard, dur time.Duration) (sig, what st
 	return "", "", ""
 }
 
+// c20ClockBeforeLock: the failure detector's Report and SuspicionLevel read the
+// clock BEFORE they take the detector's mutex, so two goroutines (the packet
+// listener reporting an arrival, the liveness task asking for the level) can
+// enter the critical section in the opposite order of their timestamps. The
+// explicit-timestamp entry points are exactly what runs inside the critical
+// section, so every such interleaving is one call sequence: timestamps that are
+// out of order with respect to call order, with gaps from nanoseconds to many
+// bootstrap intervals (a goroutine descheduled between reading the clock and
+// getting the lock). Oracle: no call panics (in piko the liveness goroutine has
+// no recover: the process would die), every level is finite, and a peer that
+// then stays silent is still suspected.
+func c20ClockBeforeLock(r *rand.Rand, sh *core.Shard) (sig, what string) {
+	for it := 0; it < 400; it++ {
+		boot := time.Duration(1+r.Intn(200)) * time.Millisecond
+		w := 50 // the window piko configures
+		fd := gossip.NewVAccrual(boot, w)
+		base := time.Unix(1_700_000_000, 0)
+		now := int64(0) // ns since base: the lock order's clock
+		var calls []string
+		var lastReport, lastQuery int64
+		call := func(desc string, f func() float64) (string, string) {
+			calls = append(calls, desc)
+			var lvl float64
+			var pm any
+			func() {
+				defer func() { pm = recover() }()
+				lvl = f()
+			}()
+			if pm != nil {
+				return "panic", fmt.Sprintf("failure detector (bootstrap %s, window %d): %v\n  calls in lock order, timestamps as read before taking the lock: %v", boot, w, pm, calls)
+			}
+			if math.IsNaN(lvl) || math.IsInf(lvl, 0) {
+				return "level-not-finite", fmt.Sprintf("failure detector (bootstrap %s, window %d): level %v\n  calls: %v", boot, w, lvl, calls)
+			}
+			return "", ""
+		}
+		for k := 0; k < 3+r.Intn(40); k++ {
+			now += 1 + int64(r.Intn(int(2*boot)))
+			// the timestamp this goroutine read before it got the lock: up to a few
+			// bootstrap intervals in the past
+			stale := now
+			if r.Intn(3) == 0 {
+				stale -= r.Int63n(int64(1 + r.Intn(4)*int(boot)))
+			}
+			// each goroutine's own clock readings are monotone: inversions only
+			// happen between the reporter and the liveness task
+			reporter := r.Intn(2) == 0
+			if reporter {
+				if stale < lastReport {
+					stale = lastReport
+				}
+				lastReport = stale
+			} else {
+				if stale < lastQuery {
+					stale = lastQuery
+				}
+				lastQuery = stale
+			}
+			ts := base.Add(time.Duration(stale))
+			if reporter {
+				if s, wh := call(fmt.Sprintf("Report@%dus", stale/1000), func() float64 { fd.ReportAt("p", ts); return 0 }); s != "" {
+					return s, wh
+				}
+			} else {
+				if s, wh := call(fmt.Sprintf("SuspicionLevel@%dus", stale/1000), func() float64 { return fd.SuspicionAt("p", ts) }); s != "" {
+					return s, wh
+				}
+			}
+			sh.Count("clock_before_lock_calls", 1)
+		}
+		// silence: the peer must still become suspected
+		var lvl float64
+		if s, wh := call("SuspicionLevel@+1000 bootstrap intervals", func() float64 {
+			lvl = fd.SuspicionAt("p", base.Add(time.Duration(now)+1000*boot+time.Hour))
+			return lvl
+		}); s != "" {
+			return s, wh
+		}
+		if !(lvl > float64(gossip.VSuspicionThreshold)) {
+			return "silent-peer-not-suspected", fmt.Sprintf("failure detector (bootstrap %s, window %d): after out-of-order timestamps a peer silent for over an hour has level %v\n  calls: %v", boot, w, lvl, calls)
+		}
+	}
+	return "", ""
+}
+
 func runC20(sh *core.Shard, a props.Args) {
+	if sig, what := c20ClockBeforeLock(rand.New(rand.NewSource(a.CaseSeed(4_000_000+a.Shard))), sh); sig != "" {
+		sh.Eval()
+		sh.Violate(sig, what, map[string]any{"kind": "clock-before-lock", "case_seed": a.CaseSeed(4_000_000 + a.Shard)})
+		return
+	}
 	// (c) component-level: one node's gossip state + syncer + cluster.State fed
 	// from several goroutines with liveness flips and expiry sweeps; the routing
 	// table must mirror the gossip view when activity stops
@@ -589,12 +680,12 @@ func runC20(sh *core.Shard, a props.Args) {
 func init() {
 	props.Register(&props.Prop{
 		ID: "C20", Level: "exploration", Race: true, Parallel: 4, BoundedTime: true,
-		Rule: "race-built workloads, repeated (quick 16, thorough 160 repetitions, alternating): (a) 3 real nodes with 10 ms gossip and 16-32 (thorough 64) worker goroutines each doing a fixed number of operations drawn from {connect an HTTP/TCP upstream (half with an agent-style cancelled context), go-away or disconnect one, HTTP request by Host label or TCP tunnel through a random node for one of 5 endpoints, read a status route or /metrics}, while one node at a time is shut down gracefully and replaced twice; every operation runs under a 30 s watchdog (about 1000x its normal latency) whose expiry is a violation; responses must carry a stamp of the addressed endpoint or be 502/504; (b) 3 gossip.New instances over loopback UDP/TCP with 5 ms interval and per instance 2 writers, a goroutine calling CompactLocal/UpdateLiveness/RemoveExpired, one calling gossipRound and a status reader, all spinning for 1.5 s (5 s), so the periodic tasks interleave with packet/stream handling thousands of times. (c) one node's real gossip state + syncer + cluster.State fed digests/deltas of 3-5 owners from 3-5 goroutines released together with liveness flips and expiry sweeps (thousands of short rounds): when the goroutines have returned the routing table mirrors the gossip view. Oracle: zero race-detector reports (any report is a violation, de-duplicated by outermost frames), no panic or fatal error (the child process would die and is reported), no watchdog expiry, and at the final quiescent point (polled 40 s) on every node registry == routing-table entry == published gossip entries and every node's table mirrors every other node's own state / every gossip view equals the owner's state. Distinct = one per repetition (hash of its seed); the evidence lists operation counts.",
+		Rule: "race-built workloads, repeated (quick 16, thorough 160 repetitions, alternating): (a) 3 real nodes with 10 ms gossip and 16-32 (thorough 64) worker goroutines each doing a fixed number of operations drawn from {connect an HTTP/TCP upstream (half with an agent-style cancelled context), go-away or disconnect one, HTTP request by Host label or TCP tunnel through a random node for one of 5 endpoints, read a status route or /metrics}, while one node at a time is shut down gracefully and replaced twice; every operation runs under a 30 s watchdog (about 1000x its normal latency) whose expiry is a violation; responses must carry a stamp of the addressed endpoint or be 502/504; (b) 3 gossip.New instances over loopback UDP/TCP with 5 ms interval and per instance 2 writers, a goroutine calling CompactLocal/UpdateLiveness/RemoveExpired, one calling gossipRound and a status reader, all spinning for 1.5 s (5 s), so the periodic tasks interleave with packet/stream handling thousands of times. (c) one node's real gossip state + syncer + cluster.State fed digests/deltas of 3-5 owners from 3-5 goroutines released together with liveness flips and expiry sweeps (thousands of short rounds): when the goroutines have returned the routing table mirrors the gossip view. (d) the failure detector reads the clock before taking its mutex, so the liveness task and the packet listener can enter it in the opposite order of their timestamps: seeded call sequences on the explicit-timestamp entry points (the critical sections) with stale timestamps up to a few bootstrap intervals: no panic, finite levels, a silent peer is still suspected. Oracle: zero race-detector reports (any report is a violation, de-duplicated by outermost frames), no panic or fatal error (the child process would die and is reported), no watchdog expiry, and at the final quiescent point (polled 40 s) on every node registry == routing-table entry == published gossip entries and every node's table mirrors every other node's own state / every gossip view equals the owner's state. Distinct = one per repetition (hash of its seed); the evidence lists operation counts.",
 		Assumptions: []string{
 			"the race detector only sees the interleavings that occurred; repetitions and high-frequency task invocation widen, not enumerate, them",
 			"the E4 concurrent phases of C05 and C15 run under the same detector and count towards this property's reach",
 		},
-		RequireCounters: []string{"operations", "requests_served", "status_reads", "upstream_churn_events", "node_restarts", "burst_rounds", "gossip_local_writes", "gossip_task_invocations", "gossip_watcher_events", "final_consistency_checks", "concurrent_routing_rounds", "concurrent_routing_nodes_compared"},
+		RequireCounters: []string{"operations", "requests_served", "status_reads", "upstream_churn_events", "node_restarts", "burst_rounds", "gossip_local_writes", "gossip_task_invocations", "gossip_watcher_events", "final_consistency_checks", "concurrent_routing_rounds", "concurrent_routing_nodes_compared", "clock_before_lock_calls"},
 		MaxCounters:     []string{"slowest_operation_ms"},
 		Shards:          func(string) int { return 16 },
 		Timeout: func(tier string) time.Duration {
